@@ -24,7 +24,7 @@ def enable_jax_cache():
     try:
         import jax
         jax.config.update('jax_compilation_cache_dir', d)
-        jax.config.update('jax_persistent_cache_min_compile_time_secs', 1.0)
+        jax.config.update('jax_persistent_cache_min_compile_time_secs', float(os.environ.get('VERIF_JAXCACHE_MIN_S', '0.3')))
         jax.config.update('jax_persistent_cache_min_entry_size_bytes', 0)
     except Exception:
         pass
